@@ -101,6 +101,7 @@ def find_extrema(x, kind='peaks', parabolic=False):
     return loc, sgn * y[loc]
 
 
+KNIFE = [0]   # counts padding-pass decisions that sat on a rounding knife-edge (refined locations only)
 DEFAULT_LOC_PAD = {'mode': 'reflect', 'reflect_type': 'odd'}
 DEFAULT_MAG_PAD = {'mode': 'median', 'stat_length': 1}
 
@@ -122,12 +123,17 @@ def padded_extrema(x, kind='peaks', pad_width=2, parabolic_extrema=False, loc_pa
     L = np.pad(locs, pw, lmode, **lo)
     M = np.pad(mags, pw, mmode, **mo)
     guard = 0
+    tol = 1e-9 * x.size
     while L.max() < x.size or L.min() >= 0:
+        if parabolic_extrema and (abs(L.max() - x.size) <= tol or abs(L.min()) <= tol):
+            KNIFE[0] += 1      # the decision to pad once more hangs on rounding of a refined location
         L = np.pad(L, pw, lmode, **lo)
         M = np.pad(M, pw, mmode, **mo)
         guard += 1
         if guard > 10000:
             raise RuntimeError('padding does not reach the record ends')
+    if parabolic_extrema and (abs(L.max() - x.size) <= tol or abs(L.min()) <= tol):
+        KNIFE[0] += 1
     return L, M
 
 
@@ -152,7 +158,7 @@ def envelope(x, which='upper', interp_method='splrep', extrema_opts=None):
 
 
 class RefResult:
-    __slots__ = ('kind', 'imf', 'flag', 'niters', 'margin_tie', 'margin_stop', 'exit', 'note')
+    __slots__ = ('kind', 'imf', 'flag', 'niters', 'margin_tie', 'margin_stop', 'margin_par', 'exit', 'note')
 
     def __init__(self):
         self.kind = None        # 'imf' | 'input' | 'error'
@@ -161,6 +167,8 @@ class RefResult:
         self.niters = 0
         self.margin_tie = np.inf   # smallest |adjacent difference| / scale seen on any iterate
         self.margin_stop = np.inf  # smallest relative distance of a stop metric from its threshold
+        self.margin_par = np.inf   # parabolic refinement only: smallest |second difference| at an extremum / scale
+                                   # (the vertex position is ill-conditioned when it is close to 0)
         self.exit = None        # 'no-extrema-input' | 'extrema-vanished' | 'stop-rule' | 'limit'
         self.note = ''
 
@@ -184,6 +192,7 @@ def ref_extract(x, env_step_size=1, max_iters=1000, stop_method='sd', sd_thresh=
     scale = scale if scale > 0 else 1.0
     proto = x.copy()
     cap = hard_cap if hard_cap is not None else max_iters + 3
+    knife0 = KNIFE[0]
     n = 0
     while True:
         n += 1
@@ -193,8 +202,16 @@ def ref_extract(x, env_step_size=1, max_iters=1000, stop_method='sd', sd_thresh=
                 d = d[d > 0]     # exact ties in a *given* input survive exact transforms of it
             if d.size:
                 r.margin_tie = min(r.margin_tie, float(d.min()) / scale)
+            if (extrema_opts or {}).get('parabolic_extrema') and proto.size >= 3:
+                for kind_ in ('max', 'min'):
+                    loc = strict_extrema(proto, kind_)
+                    if loc.size:
+                        den = np.abs(proto[loc - 1] - 2 * proto[loc] + proto[loc + 1])
+                        r.margin_par = min(r.margin_par, float(den.min()) / scale)
         up = envelope(proto, 'upper', method, extrema_opts)
         lo = envelope(proto, 'lower', method, extrema_opts)
+        if KNIFE[0] != knife0:
+            r.note = 'padding-pass-count-on-a-rounding-knife-edge'
         if up is None or lo is None:
             r.niters = n
             r.imf = proto
@@ -246,7 +263,7 @@ def conditioned_layers(x, imf, opts, envelope_opts, extrema_opts, tie=1e-7, stop
         res = x - imf[:, :j].sum(axis=1)
         r = ref_extract(res, envelope_opts=envelope_opts, extrema_opts=extrema_opts, hard_cap=1200,
                         ignore_input_ties=(j == 0), **opts)
-        if r.kind == 'error' or r.note or r.margin_stop <= stop or r.margin_tie <= tie:
+        if r.kind == 'error' or r.note or r.margin_stop <= stop or r.margin_tie <= tie or r.margin_par <= 1e-4:
             break
         good += 1
     return good
